@@ -237,7 +237,7 @@ macro_rules! common_impl {
             }
         }
         fn feed(&mut self, cb: &mut Cb, data: &[u8], ev: &mut Vec<Ev>, warn: &mut Vec<String>) {
-            let mut buf = [0u8; 2048];
+            let mut buf = [0u8; 1400]; // MAX_PACKETSIZE: what the callers in the repository pass, the minimum accepted
             let (packet, res) =
                 $c::Connection::feed(self, cb, &mut WarnStr(warn), data, &mut buf[..]);
             match res {
@@ -265,7 +265,7 @@ impl Ep for c6::Connection {
     common_impl!(c6);
     fn read(data: &[u8], token: Option<bool>) -> WRead {
         let mut warnings = Vec::new();
-        let mut buf = [0u8; 2048];
+        let mut buf = [0u8; 1400]; // MAX_PACKETSIZE: what the callers in the repository pass, the minimum accepted
         let packet = match p6::Packet::read(&mut WarnStr(&mut warnings), data, token, &mut buf[..])
         {
             Err(e) => Err(format!("{:?}", e)),
@@ -311,7 +311,7 @@ impl Ep for c7::Connection {
     common_impl!(c7);
     fn read(data: &[u8], _token: Option<bool>) -> WRead {
         let mut warnings = Vec::new();
-        let mut buf = [0u8; 2048];
+        let mut buf = [0u8; 1400]; // MAX_PACKETSIZE: what the callers in the repository pass, the minimum accepted
         let packet = match p7::Packet::read(&mut WarnStr(&mut warnings), data, &mut buf[..]) {
             Err(e) => Err(format!("{:?}", e)),
             Ok(p7::Packet::Connless(c)) => Ok(WPacket::Connless(c.payload.to_vec())),
